@@ -12,13 +12,19 @@ Proof.
   destruct (run o (op_prog zs op) _) as [s1 r]. reflexivity.
 Qed.
 
+Lemma ifnull_noret : forall o l p q s, snd (run o p s) = false -> snd (run o q s) = false -> snd (run o (IfNull l p q) s) = false.
+Proof. intros o l p q s Hp Hq. cbn [run]. destruct (sget s l); assumption. Qed.
+Lemma seq_setnull_noret : forall o p l s, snd (run o p s) = false -> snd (run o (Seq p (SetNull l)) s) = false.
+Proof. intros o p l s Hp. cbn [run]. destruct (run o p s) as [s1 r]. cbn in Hp. subst r. reflexivity. Qed.
+Lemma skip_noret : forall o s, snd (run o Skip s) = false.
+Proof. reflexivity. Qed.
+
 Lemma client_noret : forall zs o op s, snd (run o (client zs op) s) = false.
 Proof.
   intros zs o op s.
-  destruct op; cbn [client];
-    try (cbn [run]; match goal with |- context [sget ?s ?l] => destruct (sget s l) end; try reflexivity; apply api_noret);
-    try (cbn [run]; pose proof (api_noret zs o) as H;
-         match goal with |- context [run o (api zs ?op) ?s] => specialize (H op s); destruct (run o (api zs op) s) as [s1 r]; cbn in H; subst r; reflexivity end).
+  destruct op; unfold client;
+    first [ apply ifnull_noret; first [apply api_noret | apply skip_noret]
+          | apply seq_setnull_noret; apply api_noret ].
 Qed.
 
 Lemma run_seq_noret : forall o p q s, snd (run o p s) = false -> run o (Seq p q) s = run o q (fst (run o p s)).
